@@ -59,9 +59,10 @@ fn special_family(rng: &mut Rng, cfg: &GenCfg) -> Option<Vec<Doc>> {
             let mut c = cfg.clone();
             c.max_depth = 2;
             c.max_elems = 400;
+            c.p_long = 0;
             let mut budget = 4;
             let sk = crate::dom::gen_skel(rng, &c, "p", 1, &mut budget);
-            let n = rng.range(10, 50);
+            let n = *rng.pick(&[10usize, 20, 33, 50, 65, 129, 257]);
             let k = rng.range(1, 2);
             let mut docs = Vec::new();
             for _ in 0..k {
@@ -116,6 +117,14 @@ fn special_family(rng: &mut Rng, cfg: &GenCfg) -> Option<Vec<Doc>> {
                 docs.push(Doc::plain(root));
             }
             Some(docs)
+        }
+        3 => {
+            // long history: 8..=20 small documents from one skeleton (counters, positions and merges accumulate)
+            let mut c = cfg.clone();
+            c.max_elems = 8;
+            c.max_depth = c.max_depth.min(3);
+            let k = rng.range(8, 20);
+            Some(gen_history(rng, &c, k).1)
         }
         _ => None,
     }
